@@ -5,6 +5,9 @@ EXTENDS MCGen
 OpsV == {"GoNew", "Unimplemented", "AssertionFailedf", "WithHint", "WithDetail", "WithTelemetry",
          "WithDomain", "WithIssueLink", "WithContextTags", "WithAssertionFailure",
          "HandleAsAssertionFailure", "WrapWithHTTPCode", "WrapWithGrpcCode", "Join", "Hop"}
+\* restricted instance: long hint / detail chains over a six-word vocabulary
+OpsHints == {"GoNew", "WithHint", "WithDetail", "WithAssertionFailure", "WithIssueLink"}
+ShapesH == {<<"w1">>, <<"w2">>, <<"w3">>, <<"w4">>, <<"w5">>, <<"w6">>}
 ShapesV == {<<"w1">>}
 Shapes2V == {<<"w1">>, <<"w2">>, <<>>}
 =============================================================================
